@@ -76,14 +76,15 @@ pub fn import_signing_key(keypair: &[u8]) -> Result<impl SigningKey, Error> {
 /// import a existing verifying key, using the first byte flag to detect the signature scheme
 ///
 pub fn import_verifying_key(veriying_key: &[u8]) -> Result<Box<dyn VerifyingKey>, Error> {
-    if veriying_key[0] != KEY_TYPE_ED_2519 {
-        return Err(Error::InvalidKeyType(KEY_TYPE_ED_2519));
-    }
+    //the length is checked first: an empty key must produce an error, not an out of bounds access
     if veriying_key.len() != 33 {
         return Err(Error::InvalidKeyLenght(format!(
             "key lenght must be 33,  value: {} ",
             veriying_key.len()
         )));
+    }
+    if veriying_key[0] != KEY_TYPE_ED_2519 {
+        return Err(Error::InvalidKeyType(KEY_TYPE_ED_2519));
     }
 
     let ke: [u8; 32] = veriying_key[1..33].try_into().unwrap();
